@@ -267,7 +267,7 @@ RecvHs2(n, id, via) ==
 (* ---- data / test / close received ---- *)
 RecvData(n, id, via) ==
     LET m == msgs[id] IN
-    /\ m.kind \in {"data", "test", "close"}
+    /\ m.kind \in {"data", "test", "testreply", "close"}
     /\ UNCHANGED <<clock, pend, sends, timers, early>>
     /\ IF m.respIdx \in DOMAIN tuns[n] /\ tuns[n][m.respIdx].key = m.key /\ tuns[n][m.respIdx].peer = m.src
           /\ m.ctr \notin tuns[n][m.respIdx].rx
@@ -280,6 +280,9 @@ RecvData(n, id, via) ==
                      /\ tuns' = [tuns EXCEPT ![n][t.lidx].rx = @ \cup {m.ctr}, ![n][t.lidx].tx = t.tx + 1]
                      /\ Emit(<<[id |-> Len(msgs) + 1, to |-> t.remote]>>)
                      /\ tunout' = 0 /\ UNCHANGED hosts
+                [] m.kind = "testreply" ->
+                     /\ tuns' = [tuns EXCEPT ![n][t.lidx].rx = @ \cup {m.ctr}]
+                     /\ tunout' = 0 /\ NoEmit /\ UNCHANGED <<msgs, hosts>>
                 [] m.kind = "close" ->
                      LET r == DelTunnel(hosts[n], tuns[n], t.lidx) IN
                      /\ hosts' = [hosts EXCEPT ![n] = r[1]]
